@@ -74,6 +74,11 @@ def learn_prune_traces(rep, tier, seed):
         elif i % 4 in (1, 3) and i % 2 == 1:
             # prune runs on a coarse integer grid: samples that lose a distance tie to another class's prototype
             Xt, Xv = np.round(Xt), np.round(Xv)
+        # how the caller holds the four arrays is its business: float64, float32, integer-typed (grid data)
+        if i % 5 == 2:
+            Xt, Xv = Xt.astype(np.float32), Xv.astype(np.float32)
+        elif i % 5 == 4 and np.all(Xt == np.round(Xt)) and np.all(Xv == np.round(Xv)):
+            Xt, Xv = Xt.astype(np.int64), Xv.astype(np.int64)
         I = H.Interner()
         met = rng.choice(["euclidean", "log_squared_euclidean", "manhattan"])
         kind = "learn" if (i % 2 == 0 or i >= nsmall) else "prune"
